@@ -62,6 +62,9 @@ CHECKS = {
     "C17": ("pbt-values", "generated (Rep1, Period1, Rep2, Period2) instances (library typedef periods, awkward ratios, random ratios): round trips bit-exact with rep/unit/period pinned by static_assert; mixed duration/quantity comparisons, sums and differences in both operand orders against chrono's own results (differential oracle) where the model says chrono does not overflow, built as C++20 and syntax-checked elsewhere; acceptance traits against the C06 model",
             "Exploration with chrono itself as the differential oracle; special grids + rapidcheck draws incl. near-equal counts across periods.",
             "mixed operations compared only on instances admitted by Au's conversion policy (model-predicted, compile-checked)", "4/C17"),
+    "C18": ("pbt-programs", "Hypothesis-generated unit expressions (labelled/unlabelled named units, huge/rational/irrational scale factors) whose printed label is parsed by an independent parser of the documented grammar and evaluated back to (dimension, magnitude): denotation round trip against the model; sizeof/strlen, cross-compiler determinism, exact strings for simple shapes, IToA/UIToA digits, exhaustive streaming of all 8-bit reps incl. plain char; everything under ASan+UBSan",
+            "Exploration with a denotational oracle: any label that parses under the documented grammar and denotes the right unit is accepted. One known finding (F3) excluded by construction with a pinned reproducer.",
+            "token table (unit symbols, prefix symbols) written in the model; cases whose leaves share a label text are skipped", "4/C18"),
 }
 ENGINES = [
     {"name": "pbt-programs", "path": "auverif/hyp.py", "kind_free_text": "Hypothesis-generated translation units judged by compiler verdict / static_assert / program output against an independent Python model",
